@@ -82,6 +82,8 @@ fn main() {
     }
     let seed: u64 = std::env::var("VERIF_SEED").ok().and_then(|s| s.parse().ok()).unwrap_or(0);
     core::install_panic_hook();
+    core::REPLAY_MODE.store(replay.is_some(), std::sync::atomic::Ordering::SeqCst);
+    core::EARLY_TIER_THOROUGH.store(tier == core::Tier::Thorough, std::sync::atomic::Ordering::SeqCst);
     let args = Args { tier, seed, replay };
     let t0 = Instant::now();
     let rep: Report = match checks::dispatch(&id, &args) {
